@@ -60,6 +60,25 @@ m("c08-lesser-is-le", "milu/src/script/stdlib.rs", "compare_op!(Lesser, <);", "c
 m("c08-index-raw-member", "milu/src/script/stdlib.rs", "        obj.get(index)?.real_value_of(ctx)", "        obj.get(index)?.value_of(ctx)", ["C08"])
 m("c08-to-integer-any", "milu/src/script/stdlib.rs", "function!(ToInteger(s: String)=>Integer, {", "function!(ToInteger(s: Any)=>Integer, {", ["C08"])
 
+# ---- C02
+m("c02-last-match", "src/main.rs", "state.rules().await.iter().find_map(|x| {", "state.rules().await.iter().rev().find_map(|x| {", ["C02"])
+m("c02-error-is-true", "src/rules/mod.rs", "                    trace!(\"error evaluating filter: {:?}\", e);\n                    false", "                    trace!(\"error evaluating filter: {:?}\", e);\n                    true", ["C02"])
+m("c02-skip-feature-gate", "src/main.rs", "    if !connector.has_feature(feature) {", "    if false && !connector.has_feature(feature) {", ["C02"])
+m("c02-deny-falls-through", "src/main.rs", "            if x.evaluate(ctx) {\n                Some(x.target.clone())", "            if x.evaluate(ctx) && x.target.is_some() {\n                Some(x.target.clone())", ["C02"])
+m("c02-listener-is-connector", "src/rules/script_ext.rs", '            "listener" => Ok(self.req.listener.clone().into()),', '            "listener" => Ok(self.req.connector.as_deref().unwrap_or("").into()),', ["C02"])
+m("c02-cidr-parse-fail-true", "src/rules/script_ext.rs", '        warn!("can not parse ip: {}", s_ip);\n        return Ok(false.into())', '        warn!("can not parse ip: {}", s_ip);\n        return Ok(true.into())', ["C02"])
+m("c02-source-host-is-target", "src/rules/script_ext.rs", '            "source" => Ok(SocketAddress(self.req.source).into()),', '            "source" => Ok(self.req.target.clone().into()),', ["C02"])
+m("c02-filterless-never", "src/rules/mod.rs", "        let ret = if self.filter.is_none() {\n            true", "        let ret = if self.filter.is_none() {\n            false", ["C02"])
+m("c02-feature-default", "src/connectors/mod.rs", "        self.features().contains(&feature)", "        self.features().contains(&feature) || feature == Feature::UdpBind", ["C02"])
+
+# ---- C17
+m("c17-rr-load-store", "src/connectors/loadbalance.rs", "        let next = self.idx.fetch_add(1, Ordering::Relaxed);", "        let next = self.idx.load(Ordering::Relaxed);\n        std::thread::yield_now();\n        self.idx.store(next + 1, Ordering::Relaxed);", ["C17"])
+m("c17-random-skips-first", "src/connectors/loadbalance.rs", "let next = self.connectors.choose(&mut thread_rng()).unwrap();", "let next = self.connectors[self.connectors.len().min(2) - 1..].choose(&mut thread_rng()).unwrap();", ["C17"])
+m("c17-record-lb-name", "src/connectors/loadbalance.rs", "        ctx.write().await.set_connector(next);", "        ctx.write().await.set_connector(self.name.clone());\n        let _ = next;", ["C17"])
+m("c17-rr-off-by-one", "src/connectors/loadbalance.rs", "        let next = &self.connectors[next % self.connectors.len()];\n        Ok(state.connectors.get(next).unwrap().clone())\n    }\n\n    async fn hash_by", "        let next = &self.connectors[next % self.connectors.len().max(2).saturating_sub(1).max(1).min(self.connectors.len())];\n        Ok(state.connectors.get(next).unwrap().clone())\n    }\n\n    async fn hash_by", ["C17"])
+
+m("c17-hash-mixes-port", "src/connectors/loadbalance.rs", '        let ctx = create_context(ctx.read().await.props().clone());\n        let result = self.hash_by.as_ref().unwrap().real_value_of(ctx.into())?;\n        let mut hasher = std::collections::hash_map::DefaultHasher::new();\n        use std::hash::Hasher;\n        result.hash(&mut hasher);', '        let cid = ctx.read().await.props().source.port();\n        let ctx = create_context(ctx.read().await.props().clone());\n        let result = self.hash_by.as_ref().unwrap().real_value_of(ctx.into())?;\n        let mut hasher = std::collections::hash_map::DefaultHasher::new();\n        use std::hash::Hasher;\n        result.hash(&mut hasher);\n        cid.hash(&mut hasher);', ["C17"])
+
 def run(name, file, old, new, props):
     path = os.path.join("/repo", file)
     src = open(path).read()
